@@ -233,6 +233,7 @@ func registerIntrinsics(e *Engine) {
 	registerOS(e)
 	registerHash(e)
 	registerMisc(e)
+	registerBig(e)
 }
 
 // ---------------------------------------------------------------------
